@@ -5,7 +5,7 @@
    which range: `read`, `start_tag`, `end_tag`, `push/pop_inline`, `push/pop_block`, and
    `DocumentBlock::append_inline/append_block/append_item` of `model/document.rs`), of
    `Document::link_at`, `DocumentBlock::block_at_position`, `DocumentInline::link_at_position`,
-   `key_range` (`model/document.rs:49-61,221-262,547-605`), and the specification
+   `key_range` (`model/document.rs:49-61,227-293,570-628`), and the specification
    `lsp_pos` of what a position is for an LSP client (line = number of line feeds before the
    offset, character = UTF-16 code units since the last line feed).
    Definitions only; the proofs are in PosFacts.v. *)
@@ -20,13 +20,17 @@ Definition is_lf (c : ascii) : bool := Ascii.eqb c LF.
 Definition is_cr (c : ascii) : bool := Ascii.eqb c CR.
 
 (* ---------- variants ------------------------------------------------------------------ *)
-(* The pinned tree is `as_found`.  `fix-c13-crlf.patch` (R5) turns [v_crlf] on,
-   `fix-c13-utf16.patch` (R11) turns [v_utf16] on. *)
-Record variant := Variant { v_crlf : bool; v_utf16 : bool }.
-Definition as_found : variant := Variant false false.
-Definition repaired : variant := Variant true true.
+(* [as_found] is the tree before any repair of this property.  Each flag is one `fix:` commit of
+   /repo: [v_crlf] (R5, line table counts the bytes of CRLF), [v_utf16] (R11, columns in UTF-16
+   units), [v_empty_item] (`line_range` of a list no longer unwraps the first block of the first
+   item), [v_table] (`child_inlines` of a table are its cells), [v_tight] (`append_inline` grows
+   the line range of a paragraph with every inline).  The current tree is [repaired]. *)
+Record variant := Variant {
+  v_crlf : bool; v_utf16 : bool; v_empty_item : bool; v_table : bool; v_tight : bool }.
+Definition as_found : variant := Variant false false false false false.
+Definition repaired : variant := Variant true true true true true.
 
-(* ---------- line_starts (reader.rs:397-409) ------------------------------------------ *)
+(* ---------- line_starts (reader.rs:412-417) ------------------------------------------ *)
 
 (* `.scan(0, ..)` with the running sum as state and as output *)
 Fixpoint scan_add (acc : nat) (l : list nat) : list nat :=
@@ -50,7 +54,7 @@ Definition line_starts_fixed (t : string) : list nat := 0 :: lf_starts t 0.
 Definition line_starts (v : variant) (t : string) : list nat :=
   if v_crlf v then line_starts_fixed t else line_starts_as_found t.
 
-(* the loop of to_line_range / to_inline_range (reader.rs:356-365, 380-387):
+(* the loop of to_line_range / to_inline_range (reader.rs:363-372, 395-402):
      for (line, &line_start) in line_starts.iter().enumerate() {
          if line_start <= x { l = line; ch = x - line_start; } }                         *)
 Fixpoint locate_aux (ls : list nat) (i x : nat) (acc : nat * nat) : nat * nat :=
@@ -60,7 +64,10 @@ Fixpoint locate_aux (ls : list nat) (i x : nat) (acc : nat * nat) : nat * nat :=
   end.
 Definition locate (ls : list nat) (x : nat) : nat * nat := locate_aux ls 0 x (0, 0).
 
-(* to_line_range (reader.rs:376-394) *)
+(* to_line_range (reader.rs:391-409): the end line is the line of `range.end`, excluded unless
+   it is the start line — a range that ends inside a line (no line ending behind its last byte)
+   loses that line (open finding F-C13-last-line; the repository's own test
+   `sections_builder::test::multiline_code` pins 0..3 for a fenced block of four lines) *)
 Definition to_line_range (ls : list nat) (s e : nat) : lrange :=
   let a := fst (locate ls s) in
   let b := fst (locate ls e) in
@@ -153,7 +160,7 @@ Fixpoint stake (n : nat) (s : string) : string :=
   end.
 Definition slice (t : string) (from to : nat) : string := stake (to - from) (sdrop from t).
 
-(* ---------- to_inline_range (reader.rs:350-374) --------------------------------------- *)
+(* ---------- to_inline_range (reader.rs:357-389) --------------------------------------- *)
 
 (* as found: character = byte distance from the line start.
    repaired (R11): character = content.get(line_start..x).map(|s| s.encode_utf16().count())
@@ -244,7 +251,8 @@ Inductive pblock :=
 | BQuote (lr : lrange) (bs : list pblock)
 | BList (items : list (list pblock))                  (* ordered or bullet: no range of its own *)
 | BRule (lr : lrange)
-| BTable (lr : lrange).                               (* cells are never searched *)
+| BTable (lr : lrange) (header : list (list pinl)) (rows : list (list (list pinl))).
+                                                      (* header cells; rows of cells; a cell = its inlines *)
 
 Definition is_link (k : pkind) : bool := match k with KLink _ _ => true | _ => false end.
 
@@ -271,7 +279,7 @@ Definition pos_ltb (a b : pos) : bool :=
 Definition irange_contains (r : irange) (p : pos) : bool := pos_leb (fst r) p && pos_ltb p (snd r).
 Definition lrange_contains (r : lrange) (line : nat) : bool := Nat.leb (fst r) line && Nat.ltb line (snd r).
 
-(* DocumentInline::link_at_position (document.rs:597-605) *)
+(* DocumentInline::link_at_position (document.rs:620-628) *)
 Fixpoint link_at_position (i : pinl) (p : pos) : option pinl :=
   match i with
   | PNode k r kids =>
@@ -289,7 +297,7 @@ Fixpoint first_link_at (l : list pinl) (p : pos) : option pinl :=
   | x :: rest => match link_at_position x p with Some y => Some y | None => first_link_at rest p end
   end.
 
-(* DocumentInline::key_range (document.rs:547-567); `end.character - 1` is a usize
+(* DocumentInline::key_range (document.rs:570-590); `end.character - 1` is a usize
    subtraction: it overflows (a panic in builds with overflow checks, a wrapped value
    otherwise) when the end column is 0 — which a correct end column of a link never is,
    its source ends with `)`, `]` or `>`, but a shifted one can be *)
@@ -303,25 +311,36 @@ Definition key_range (i : pinl) : res (option irange) :=
   | _ => Ok None
   end.
 
-(* DocumentBlock::line_range (document.rs:221-239) *)
-Fixpoint line_range (b : pblock) : res lrange :=
+(* DocumentBlock::line_range (document.rs:227-254).
+   as found: `list.items.first().unwrap().first().unwrap().line_range()`.
+   repaired: `list.items.iter().flatten().next().map(|block| block.line_range()).unwrap_or_default()`
+   — the first block of the first item that has one; `0..0` for a list without blocks *)
+Fixpoint line_range (v : variant) (b : pblock) : res lrange :=
   match b with
-  | BPara lr _ | BHeader lr _ | BCode lr | BQuote lr _ | BRule lr | BTable lr => Ok lr
+  | BPara lr _ | BHeader lr _ | BCode lr | BQuote lr _ | BRule lr | BTable lr _ _ => Ok lr
   | BList items =>
-      match items with
-      | (first :: _) :: _ => line_range first
-      | _ => Panic "line_range: unwrap on None"
-      end
+      if v_empty_item v then
+        (fix go (l : list (list pblock)) : res lrange :=
+           match l with
+           | [] => Ok (0, 0)
+           | [] :: r => go r
+           | (first :: _) :: _ => line_range v first
+           end) items
+      else
+        match items with
+        | (first :: _) :: _ => line_range v first
+        | _ => Panic "line_range: unwrap on None"
+        end
   end.
 
-(* DocumentBlock::block_at_position (document.rs:257-262): the children first (find_map is
+(* DocumentBlock::block_at_position (document.rs:272-277): the children first (find_map is
    lazy), then `.or(Some(self).filter(..))` whose argument — hence `self.line_range()` — is
    evaluated whether or not a child matched *)
-Fixpoint block_at (b : pblock) (line : nat) : res (option pblock) :=
+Fixpoint block_at (v : variant) (b : pblock) (line : nat) : res (option pblock) :=
   let fix go (l : list pblock) : res (option pblock) :=
     match l with
     | [] => Ok None
-    | x :: rest => do r <- block_at x line; match r with Some y => Ok (Some y) | None => go rest end
+    | x :: rest => do r <- block_at v x line; match r with Some y => Ok (Some y) | None => go rest end
     end in
   let fix go_items (l : list (list pblock)) : res (option pblock) :=
     match l with
@@ -333,27 +352,33 @@ Fixpoint block_at (b : pblock) (line : nat) : res (option pblock) :=
           | BList items => go_items items
           | _ => Ok None
           end;
-  do lr <- line_range b;
+  do lr <- line_range v b;
   Ok (match c with
       | Some y => Some y
       | None => if lrange_contains lr line then Some b else None
       end).
 
 (* Document::block_at_position (document.rs:56-60) *)
-Fixpoint doc_block_at (bs : list pblock) (line : nat) : res (option pblock) :=
+Fixpoint doc_block_at (v : variant) (bs : list pblock) (line : nat) : res (option pblock) :=
   match bs with
   | [] => Ok None
-  | x :: rest => do r <- block_at x line; match r with Some y => Ok (Some y) | None => doc_block_at rest line end
+  | x :: rest => do r <- block_at v x line; match r with Some y => Ok (Some y) | None => doc_block_at v rest line end
   end.
 
-(* DocumentBlock::child_inlines (document.rs:264-271) *)
-Definition child_inlines (b : pblock) : list pinl :=
-  match b with BPara _ l | BHeader _ l => l | _ => [] end.
+(* DocumentBlock::child_inlines (document.rs:279-293).
+   as found: a table has none.  repaired: the inlines of its cells, header first, row by row:
+   `table.header.iter().chain(table.rows.iter().flatten()).flatten().cloned().collect()` *)
+Definition child_inlines (v : variant) (b : pblock) : list pinl :=
+  match b with
+  | BPara _ l | BHeader _ l => l
+  | BTable _ h rows => if v_table v then concat h ++ concat (concat rows) else []
+  | _ => []
+  end.
 
 (* Document::link_at (document.rs:49-54) *)
-Definition link_at (bs : list pblock) (p : pos) : res (option pinl) :=
-  do b <- doc_block_at bs (fst p);
-  Ok (match b with Some blk => first_link_at (child_inlines blk) p | None => None end).
+Definition link_at (v : variant) (bs : list pblock) (p : pos) : res (option pinl) :=
+  do b <- doc_block_at v bs (fst p);
+  Ok (match b with Some blk => first_link_at (child_inlines v blk) p | None => None end).
 
 (* ---------- the reader's stack machine, positions only -------------------------------- *)
 
@@ -374,18 +399,48 @@ Inductive ev :=
 | ERule (s e : nat)
 | ESkip.        (* Html, DisplayMath, FootnoteReference, TaskListMarker: ignored by the reader *)
 
-(* how ranges are computed; [m_union]: an implicit paragraph covers all its inlines (the
-   specification) instead of the first one only (the code) *)
+(* how ranges are computed; [m_union]: a paragraph's line range grows with every inline appended
+   to it, so an implicit paragraph (tight item, text directly in a quote) covers all its inlines
+   (the specification, and the code since the repair [v_tight]) instead of the first one only
+   (the code as found) *)
 Record mode := Mode { m_lines : nat -> nat -> lrange; m_inline : nat -> nat -> irange; m_union : bool }.
 
 Definition code_mode (v : variant) (t : string) : mode :=
   let ls := line_starts v t in
-  Mode (to_line_range ls) (to_inline_range v t ls) false.
+  Mode (to_line_range ls) (to_inline_range v t ls) (v_tight v).
 Definition spec_mode (t : string) : mode := Mode (spec_lines t) (spec_span t) true.
 
 Definition lr_union (a b : lrange) : lrange := (Nat.min (fst a) (fst b), Nat.max (snd a) (snd b)).
 
-(* DocumentBlock::append_inline (document.rs:164-219) *)
+(* tables (document.rs:130-150, 213-223): `append_row` pushes an empty row; `append_cell` pushes
+   an empty cell to the header while there is no row, else to the last row; the Table arm of
+   `append_inline` pushes the inline to the last header cell while there is no row, else to the
+   last cell of the last row — `if let Some(..) = ..last_mut()`: nothing happens without a cell *)
+Fixpoint push_last_cell (cells : list (list pinl)) (i : pinl) : list (list pinl) :=
+  match cells with
+  | [] => []
+  | c :: [] => [c ++ [i]]
+  | c :: r => c :: push_last_cell r i
+  end.
+Fixpoint on_last_row (rows : list (list (list pinl))) (f : list (list pinl) -> list (list pinl))
+  : list (list (list pinl)) :=
+  match rows with
+  | [] => []
+  | r :: [] => [f r]
+  | r :: rest => r :: on_last_row rest f
+  end.
+Definition table_inline_header (h : list (list pinl)) (rows : list (list (list pinl))) (i : pinl) :=
+  match rows with [] => push_last_cell h i | _ => h end.
+Definition table_inline_rows (rows : list (list (list pinl))) (i : pinl) :=
+  on_last_row rows (fun r => push_last_cell r i).
+Definition table_cell_header (h : list (list pinl)) (rows : list (list (list pinl))) :=
+  match rows with [] => h ++ [[]] | _ => h end.
+Definition table_cell_rows (rows : list (list (list pinl))) :=
+  on_last_row rows (fun r => r ++ [[]]).
+
+(* DocumentBlock::append_inline (document.rs:164-225); the Para arm since the repair [v_tight]
+   (document.rs:167-173):
+   `para.line_range = para.line_range.start.min(line_range.start)..para.line_range.end.max(line_range.end)` *)
 Fixpoint append_inline (M : mode) (b : pblock) (i : pinl) (lr : lrange) : res pblock :=
   let fix app_last (l : list pblock) : res (list pblock) :=
     match l with
@@ -406,7 +461,8 @@ Fixpoint append_inline (M : mode) (b : pblock) (i : pinl) (lr : lrange) : res pb
   match b with
   | BPara r l => Ok (BPara (if m_union M then lr_union r lr else r) (l ++ [i]))
   | BHeader r l => Ok (BHeader r (l ++ [i]))
-  | BCode _ | BRule _ | BTable _ => Ok b
+  | BCode _ | BRule _ => Ok b
+  | BTable r h rows => Ok (BTable r (table_inline_header h rows i) (table_inline_rows rows i))
   | BQuote r bs =>
       match bs with
       | [] => Ok (BQuote r [BPara lr [i]])
@@ -445,7 +501,7 @@ Definition push_inline (st : rst) (i : pinl) (lr : lrange) : rst :=
 Definition push_block (st : rst) (b : pblock) : rst :=
   R (r_inl st) (b :: r_blk st) (r_out st) (r_meta st).
 
-(* reader.rs:152-162 *)
+(* reader.rs:159-169 *)
 Definition pop_inline (M : mode) (st : rst) : res rst :=
   match r_inl st with
   | [] => Panic "pop_inline: unwrap on None"
@@ -461,7 +517,7 @@ Definition pop_inline (M : mode) (st : rst) : res rst :=
       end
   end.
 
-(* reader.rs:164-175 *)
+(* reader.rs:171-182 *)
 Definition pop_block (st : rst) : res rst :=
   match r_blk st with
   | [] => Panic "pop_block: unwrap on None"
@@ -481,7 +537,7 @@ Definition with_top (st : rst) (f : pblock -> res pblock) : res rst :=
   | b :: rest => do b' <- f b; Ok (R (r_inl st) (b' :: rest) (r_out st) (r_meta st))
   end.
 
-(* reader.rs:56-138 (`read`), 177-312 (`start_tag`), 314-348 (`end_tag`) *)
+(* reader.rs:50-148 (`read`), 184-319 (`start_tag`), 321-355 (`end_tag`) *)
 Definition step (M : mode) (st : rst) (e : ev) : res rst :=
   match e with
   | EStart t s e' =>
@@ -492,9 +548,13 @@ Definition step (M : mode) (st : rst) (e : ev) : res rst :=
       | TCodeBlock => Ok (push_block st (BCode (m_lines M s e')))
       | TList => Ok (push_block st (BList []))
       | TItem => with_top st (fun b => match b with BList items => Ok (BList (items ++ [[]])) | _ => Panic "append_item" end)
-      | TTable => Ok (push_block st (BTable (m_lines M s e')))
-      | TTableRow => with_top st (fun b => match b with BTable _ => Ok b | _ => Panic "cannot append row to non table block" end)
-      | TTableCell => with_top st (fun b => match b with BTable _ => Ok b | _ => Panic "cannot append cell to non table block" end)
+      | TTable => Ok (push_block st (BTable (m_lines M s e') [] []))
+      | TTableRow => with_top st (fun b => match b with
+                                           | BTable r h rows => Ok (BTable r h (rows ++ [[]]))
+                                           | _ => Panic "cannot append row to non table block" end)
+      | TTableCell => with_top st (fun b => match b with
+                                            | BTable r h rows => Ok (BTable r (table_cell_header h rows) (table_cell_rows rows))
+                                            | _ => Panic "cannot append cell to non table block" end)
       | TEmph => Ok (push_inline st (PNode KEmph (m_inline M s e') []) (m_lines M s e'))
       | TStrong => Ok (push_inline st (PNode KStrong (m_inline M s e') []) (m_lines M s e'))
       | TStrike => Ok (push_inline st (PNode KStrike (m_inline M s e') []) (m_lines M s e'))
@@ -581,7 +641,8 @@ Fixpoint pblock_eqb (a b : pblock) {struct a} : bool :=
   | BQuote r bs, BQuote r' bs' => lrange_eqb r r' && go bs bs'
   | BList it, BList it' => goi it it'
   | BRule r, BRule r' => lrange_eqb r r'
-  | BTable r, BTable r' => lrange_eqb r r'
+  | BTable r h rows, BTable r' h' rows' =>
+      lrange_eqb r r' && list_eqb (list_eqb pinl_eqb) h h' && list_eqb (list_eqb (list_eqb pinl_eqb)) rows rows'
   | _, _ => false
   end.
 
